@@ -5,6 +5,7 @@ from productmd.rpms import Rpms
 from productmd.modules import Modules
 from productmd.extra_files import ExtraFiles
 from productmd.discinfo import DiscInfo
+import productmd.treeinfo
 from domains import KINDS, make_value, in_domain
 
 PROPERTY = "C06"
@@ -108,6 +109,43 @@ def base_discinfo():
     return d
 
 
+def base_treeinfo(k=0):
+    T = productmd.treeinfo
+    ti = T.TreeInfo()
+    ti.release.name = "Fedora"
+    ti.release.short = "F"
+    ti.release.version = ["21", "Rawhide", "7.0"][k % 3]
+    ti.release.is_layered = True
+    ti.base_product.name = "Base"
+    ti.base_product.short = "B"
+    ti.base_product.version = "7"
+    ti.tree.arch = ["x86_64", "src", "s390x"][k % 3]
+    ti.tree.build_timestamp = [1417653453, 1417653453.5][k % 2]
+    ti.tree.platforms = set([ti.tree.arch, "xen"])
+    objs = {}
+    for vid, uid, parent, typ in [("Server", "Server", None, "variant"), ("HA", "Server-HA", "Server", "addon"),
+                                  ("optional", "Server-optional", "Server", "optional"), ("Client", "Client", None, "variant")]:
+        v = T.Variant(ti)
+        v.id = vid
+        v.uid = uid
+        v.name = "Name " + uid
+        v.type = typ
+        v.paths.packages = uid + "/Packages"
+        v.paths.repository = uid
+        objs[uid] = v
+        if parent is None:
+            ti.variants.add(v)
+        else:
+            objs[parent].add(v)
+    ti.images.images[ti.tree.arch] = {"boot.iso": "images/boot.iso", "kernel": "images/pxeboot/vmlinuz"}
+    ti.images.images["xen"] = {"kernel": "images/pxeboot/vmlinuz-xen"}
+    ti.stage2.mainimage = "LiveOS/squashfs.img"
+    ti.media.discnum = 1
+    ti.media.totaldiscs = 2
+    ti.checksums.add("images/boot.iso", "sha256", "a" * 64)
+    return ti, objs
+
+
 COMPOSE_FIELDS = [("id", "compose-id", 12), ("type", "compose-type", 12), ("date", "date", 9), ("respin", "int", 0),
                   ("label", "label", 16), ("final", "bool", 0)]
 RELEASE_FIELDS = [("name", "str", 3), ("short", "str", 3), ("version", "release-version", 6), ("type", "release-type", 16),
@@ -118,6 +156,11 @@ IMAGE_FIELDS = [("path", "str-nonblank", 3), ("mtime", "int", 0), ("size", "int-
                 ("type", "image-type", 22), ("format", "image-format", 22), ("arch", "str-nonblank", 3), ("disc_number", "int", 0),
                 ("disc_count", "int", 0), ("checksums", "checksums", 0), ("implant_md5", "implant-md5", 33), ("bootable", "bool", 0),
                 ("subvariant", "str", 3), ("unified", "bool", 0), ("additional_variants", "list", 0)]
+TREE_RELEASE_FIELDS = [("name", "str", 3), ("short", "str", 3), ("version", "tree-version", 5), ("is_layered", "bool", 0)]
+TREE_BP_FIELDS = [("name", "str", 3), ("short", "str", 3), ("version", "tree-version", 5)]
+TREE_FIELDS = [("arch", "str-nonblank", 3), ("build_timestamp", "number-nonzero", 0)]
+TREE_VARIANT_FIELDS = [("type", "tree-variant-type", 10)]
+TREE_MEDIA_FIELDS = [("discnum", "int-or-none", 0), ("totaldiscs", "int-or-none", 0)]
 DISCINFO_FIELDS = [("timestamp", "float-nonzero", 0), ("description", "str-nonblank", 3), ("arch", "str-nonblank", 3),
                    ("disc_numbers", "nonblank-list", 0)]
 
@@ -143,6 +186,14 @@ def locate(fmt, position, k):
     if fmt == "discinfo":
         d = base_discinfo()
         return d, d
+    if fmt == "treeinfo":
+        ti, objs = base_treeinfo(k)
+        if position in ("release", "base_product", "tree", "media", "stage2"):
+            return ti, getattr(ti, position)
+        if position.startswith("v:"):
+            return ti, objs[position[2:]]
+        if position.startswith("images:"):
+            return ti, ti.images.images[position[7:] if position[7:] != "ARCH" else ti.tree.arch]
     raise ValueError(fmt)
 
 
@@ -157,7 +208,10 @@ def corrupt_field(sym, fmt, position, attr, rule, maxlen, k):
     if attr == "final" and kind == "none":
         pass
     sym.assume(sym.not_(d))
-    setattr(holder, attr, v)
+    if attr.startswith("["):
+        holder[attr[1:-1]] = v
+    else:
+        setattr(holder, attr, v)
     sym.cover("corrupted")
     text = None
     try:
@@ -223,6 +277,43 @@ def special_corruption(sym, case):
         im, imgs = base_images(0)
         imgs[1].checksums = {}
         top = im
+    elif case == "tree-absolute-checksum-path":
+        ti, objs = base_treeinfo(0)
+        p = sym.str("path", 4, minlen=1, alphabet="printable")
+        sym.assume(p.startswith("/"))
+        sym.assume(sym.no_char(p, " =:"))
+        ti.checksums.checksums[p] = ["sha256", "b" * 64]
+        top = ti
+    elif case == "tree-unreferenced-platform":
+        ti, objs = base_treeinfo(0)
+        ti.images.images["ppc64le"] = {"kernel": "images/vmlinuz"}
+        top = ti
+    elif case == "tree-absolute-image-path":
+        ti, objs = base_treeinfo(0)
+        p = sym.str("path", 4, minlen=1, alphabet="printable")
+        sym.assume(p.startswith("/"))
+        sym.assume(sym.not_(p.endswith(" ")))
+        ti.images.images["xen"]["kernel"] = p
+        top = ti
+    elif case == "tree-absolute-stage2":
+        ti, objs = base_treeinfo(0)
+        p = sym.str("path", 4, minlen=1, alphabet="printable")
+        sym.assume(p.startswith("/"))
+        sym.assume(sym.not_(p.endswith(" ")))
+        ti.stage2.mainimage = p
+        top = ti
+    elif case == "tree-misaligned-child-uid":
+        ti, objs = base_treeinfo(0)
+        u = sym.str("uid", 10, alphabet="alnum")
+        objs["Server-HA"].uid = u + "-HA"
+        sym.assume(u != "Server")
+        top = ti
+    elif case == "tree-dashed-variant-id":
+        ti, objs = base_treeinfo(0)
+        i = sym.str("id", 5, alphabet="printable")
+        sym.assume("-" in i)
+        objs["Client"].id = i
+        top = ti
     else:
         raise ValueError(case)
     sym.cover("corrupted")
@@ -250,6 +341,10 @@ def valid_written(sym, fmt, k):
     elif fmt == "discinfo":
         top = base_discinfo()
         fields = [(top, a, r, m) for a, r, m in DISCINFO_FIELDS if a in ("description", "arch")]
+    elif fmt == "treeinfo":
+        top, objs = base_treeinfo(k)
+        fields = [(top.release, a, r, m) for a, r, m in TREE_RELEASE_FIELDS if a != "is_layered"] + [(top.base_product, a, r, m) for a, r, m in TREE_BP_FIELDS] + \
+                 [(objs["Server-HA"], "name", "str", 3), (top.media, "discnum", "int-nonzero", 0), (top.media, "totaldiscs", "int-nonzero", 0)]
     else:
         top = base_compose_only({"rpms": Rpms, "modules": Modules, "extra_files": ExtraFiles}[fmt])
         fields = [(top.compose, a, r, m) for a, r, m in COMPOSE_FIELDS]
@@ -300,10 +395,17 @@ def jobs(tier, seed):
     for fmt in ("rpms", "modules", "extra_files"):
         add(fmt, "compose", COMPOSE_FIELDS, ks)
     add("discinfo", "top", DISCINFO_FIELDS, ks)
+    add("treeinfo", "release", TREE_RELEASE_FIELDS, ks)
+    add("treeinfo", "base_product", TREE_BP_FIELDS, ks)
+    add("treeinfo", "tree", TREE_FIELDS, ks)
+    add("treeinfo", "media", TREE_MEDIA_FIELDS, ks)
+    for uid in ("Server", "Server-HA", "Client"):
+        add("treeinfo", "v:" + uid, TREE_VARIANT_FIELDS, ks)
     for case in ("child-arch-outside-parent", "child-arch-outside-parent-first-child", "misaligned-uid", "misaligned-top-uid", "empty-arches",
-                 "bad-variant-id", "additional-variants-on-non-unified", "empty-checksums"):
+                 "bad-variant-id", "additional-variants-on-non-unified", "empty-checksums", "tree-absolute-checksum-path", "tree-unreferenced-platform",
+                 "tree-absolute-image-path", "tree-absolute-stage2", "tree-misaligned-child-uid", "tree-dashed-variant-id"):
         out.append({"harness": "special_corruption", "params": {"case": case}})
-    for fmt in ("composeinfo", "images", "rpms", "modules", "extra_files", "discinfo"):
+    for fmt in ("composeinfo", "images", "rpms", "modules", "extra_files", "discinfo", "treeinfo"):
         for k in (range(10) if big else range(seed % 3, 10, 3)):
             out.append({"harness": "valid_written", "params": {"fmt": fmt, "k": k}})
     return out
@@ -316,7 +418,8 @@ META = {
         "(None, bool, int, float from a pool, str, list, dict) constrained only by NOT D_f",
         "documentation-silent corners are on neither side: non-ASCII decimal digits and newlines in pattern-validated text, bool where an int is expected, size 0",
         "base objects are concrete valid objects (nested and layered-product variants, three images in two cells); one field is corrupted at a time (the property's quantifier)",
-        "treeinfo placements are checked by the same harness once the INI layer is enabled (see evidence.bounds)",
+        "treeinfo: release, base product, tree, media and variant fields plus the structural rules (absolute image / stage2 / checksum path, unreferenced platform, "
+        "misaligned child UID, dash in a variant id); text values printable ASCII",
         "JSON text layer replaced by the DocText stub",
     ],
 }
